@@ -296,13 +296,28 @@ def run(ctx):
                           found_input=False)
     # ---------------- (b) aiorunner
     rcases = []
-    shapes = [(1, [(1, 0), (1, 0), (1, 0)]), (2, [(3, 0), (1, 0), (1, 0)]), (2, [(1, 1), (2, 0), (1, 0), (1, 1)]),
-              (3, [(3, 0), (2, 0), (1, 0)]), (3, [(1, 0), (1, 1), (3, 0), (1, 0), (2, 0)]), (2, [(2, 1), (2, 1)]),
-              (1, [(1, 1)]), (4, [(4, 0), (3, 0), (2, 0), (1, 0), (1, 0), (1, 1)])]
-    if not quick:
-        for _ in range(16):
-            W = rng.randint(1, 4)
-            shapes.append((W, [(rng.randint(1, 4), int(rng.random() < 0.25)) for _ in range(rng.randint(1, 7))]))
+    def separated(W, units):
+        """simulate FIFO dispatch (submission every 0.06 s) and require all finishing times >= 0.2 s apart"""
+        free = [0.0] * W
+        ends = []
+        for u, (dur, fail) in enumerate(units):
+            w = min(range(W), key=lambda i: free[i])
+            st = max(free[w], 0.06 * (u + 1))
+            en = st + 0.25 * dur + 0.12 * (u % 2)
+            free[w] = en
+            ends.append(en)
+        ends.sort()
+        return all(b - a >= 0.2 for a, b in zip(ends, ends[1:]))
+
+    shapes = [(1, [(1, 0), (1, 0), (1, 0)]), (2, [(3, 0), (1, 0), (1, 0)]), (1, [(1, 1)]), (2, [(2, 1), (4, 1)])]
+    want = 8 if quick else 24
+    tries = 0
+    while len(shapes) < want and tries < 5000:
+        tries += 1
+        W = rng.randint(1, 4)
+        units = [(rng.randint(1, 6), int(rng.random() < 0.25)) for _ in range(rng.randint(2, 6))]
+        if separated(W, units):
+            shapes.append((W, units))
     for W, units in shapes:
         rcases.append((W, units, None))
     rres = H.run_many(runner_case, rcases, jobs=8, timeout=300)
@@ -335,6 +350,14 @@ def run(ctx):
             oracle.append("runner did not shut down (event loop thread still alive after stop())")
         if oracle:
             ctx.violation(f"C17 statement fails on the implementation (task runner): {oracle[0]}", {"rcase": case, "observed": res}, found_input=True)
+            continue
+        # the order of near-simultaneous events is not observable (a future is resolved in the event-loop
+        # thread some time after the task logged its end): such traces are judged by the oracle only
+        fin = sorted(e[0] for e in res["events"] if e[1] == "f")
+        others = sorted(e[0] for e in res["events"] if e[1] == "S")
+        gap = min([b - a for a, b in zip(fin, fin[1:])] + [abs(a - b) for a in fin for b in others] + [9.0])
+        if gap < 0.08:
+            ctx.dist("runner:ambiguous_order_skipped")
             continue
         toks, err = trace_to_model(W, res["events"])
         if toks is None:
